@@ -148,10 +148,9 @@ func runCacheSeq(capacity int, ops []cacheOp, t *T) (sig, msg string) {
 				return "get-stale-value", where() + ": Get returned a value other than the one most recently stored under the key"
 			}
 		case 'H':
-			if !m.hasIsNeutral(k) {
-				continue // not issued: the statement does not say whether Has is a read
-			}
-			want := m.idx(k) >= 0
+			// Has is one of the reads of the statement's quantifier (Set/Get/Has/Delete/Len): a key just
+			// read is the most recent one (the order check after this step sees whether it was refreshed)
+			_, want := m.Get(k)
 			if got := c.Has(k); got != want {
 				return "has-presence", fmt.Sprintf("%s: Has=%v, expected %v", where(), got, want)
 			}
@@ -210,9 +209,9 @@ func sameSet(a, b []string) bool {
 }
 
 func runC14(e *Env) {
-	e.Rule = "sequential: ALL operation sequences of a fixed length over {Set,Get,Delete,(neutral)Has}x3 keys + Len, capacities 0..4, run in lock-step with a list-based reference LRU (return value, Len, key order via the verif hook, stored values, structural invariant after every step) + random longer sequences over 2..6 keys; router level: caching routers over generated tables, after every dynamic request the front key must be method+normalised path (GET key for HEAD fallback), the repeat must be served from the cache (same instance, Len unchanged), size <= capacity always; concurrent: short histories from 4..8 goroutines checked for linearizability against the sequential LRU with porcupine. Non-trivial: a sequence with an eviction, a hit or a delete of a present key; distinct by (capacity, sequence) / (table, history)."
+	e.Rule = "sequential: ALL operation sequences of a fixed length over {Set,Get,Has,Delete}x3 keys + Len, capacities 0..4, run in lock-step with a list-based reference LRU (return value, Len, key order via the verif hook, stored values, structural invariant after every step) + random longer sequences over 2..6 keys; router level: caching routers over generated tables, after every dynamic request the front key must be method+normalised path (GET key for HEAD fallback), the repeat must be served from the cache (same instance, Len unchanged), size <= capacity always; concurrent: short histories from 4..8 goroutines checked for linearizability against the sequential LRU with porcupine. Non-trivial: a sequence with an eviction, a hit or a delete of a present key; distinct by (capacity, sequence) / (table, history)."
 	e.Assumptions = []string{
-		"Has is only issued where it cannot affect recency (absent key or most recent key): the statement does not say whether Has counts as a read",
+		"Has counts as a read (it is one of the operations the statement quantifies over, and 'a key just read is the most recent'): it must refresh recency like Get",
 		"values are distinct *Route instances, so a read identifies the write it observed",
 		"the verif hooks VerifKeys/VerifPeek/VerifCheck read the cache under its own lock without touching recency",
 	}
@@ -596,7 +595,7 @@ func linModel(capacity int) porcupine.Model {
 				nk, nv := front(keys, vals, p)
 				return []interface{}{linFmt(nk, nv)}
 			case 'H':
-				// the statement does not say whether Has refreshes recency: allow both
+				// Has is a read: it refreshes recency like Get
 				p := find(keys, i.Key)
 				if (p >= 0) != o.Ok {
 					return nil
@@ -605,7 +604,7 @@ func linModel(capacity int) porcupine.Model {
 					return []interface{}{s}
 				}
 				nk, nv := front(keys, vals, p)
-				return []interface{}{s, linFmt(nk, nv)}
+				return []interface{}{linFmt(nk, nv)}
 			case 'D':
 				p := find(keys, i.Key)
 				if (p >= 0) != o.Ok {
